@@ -2,10 +2,14 @@ module verifharness
 
 go 1.22.0
 
-require github.com/jrhy/mast v0.0.0
+require (
+	github.com/aws/aws-sdk-go v1.55.5
+	github.com/jrhy/mast v0.0.0
+)
 
 require (
 	github.com/hashicorp/golang-lru v1.0.2 // indirect
+	github.com/jmespath/go-jmespath v0.4.0 // indirect
 	github.com/minio/blake2b-simd v0.0.0-20160723061019-3f5f724cb5b1 // indirect
 )
 
